@@ -28,10 +28,15 @@ def workfile(name):
     return os.path.join(env.workdir(), name)
 
 
-def gen_csv_case(rnd):
+def gen_csv_case(rnd, large=False):
     ncol = rnd.randint(1, 6)
     nrow = rnd.randint(1, 12)
     cands = rnd.sample(NAMES, rnd.randint(1, 6))
+    if large:
+        # beyond hand size: 10-14 rank columns (two-digit column numbers), 80-250 rows, up to 12 candidates, big weights
+        ncol = rnd.randint(10, 14)
+        nrow = rnd.randint(80, 250)
+        cands = rnd.sample(NAMES + ["Cand %d" % i for i in range(1, 13)], rnd.randint(8, 12))
     delim = rnd.choice([",", ",", ";", "|", "\t"])
     rows = []
     for i in range(nrow):
@@ -53,7 +58,7 @@ def gen_csv_case(rnd):
         layout.insert(rnd.randint(0, len(layout)), "id")
     if has_w:
         layout.insert(rnd.randint(0, len(layout)), "w")
-    weights = [rnd.choice([1, 1, 2, 3, 5]) for _ in rows]
+    weights = [rnd.choice([1, 1, 2, 3, 5] + ([10 ** 9, 10 ** 12 + 1, 123456789] if large else [])) for _ in rows]
     sel = None
     if rnd.random() < 0.55:
         sel = rnd.sample(range(ncol), rnd.randint(1, ncol))
@@ -333,7 +338,9 @@ def run(ctx):
         for i in range(ctx.n(2200, 40000)):
             if ctx.expired():
                 break
-            c = gen_csv_case(rnd)
+            c = gen_csv_case(rnd, large=(i % 40 == 11))
+            if i % 40 == 11:
+                ctx.count("large_tables")
             ctx.guard("csv", check_csv, ctx, c)
             if i % 4 == 0:
                 base = dict(c)
